@@ -79,7 +79,7 @@ example : (match setup exMismatch with | .ok c => c.hasError | _ => false) = tru
 
 /-- (c) After a `setup` that reported no error, every sequence of navigation calls (`set`, `push`,
     `pop`, `popAndSkip`, `pushPairRange`, `operator[]`, `end`, `getClosingPair(Token)`,
-    `getNextOperator`) with arbitrary integer arguments runs to completion: every token read is
+    `getNextOperator`, `getPrintToken`) with arbitrary integer arguments runs to completion: every token read is
     inside the vectors, nothing hangs; calls that raise occa::exception (pop of an empty stack,
     pushPairRange without a pair) are allowed by the property and leave the context unchanged. -/
 theorem C16_tokctx_history_safe (tokens : Array Tok) (ht : Typed tokens) (c : Ctx)
